@@ -39,14 +39,20 @@ enum O {
 
 #[derive(Clone, Debug)]
 struct RG {
+    /// lower-bound ledger: accrued over the program's own intervals (stored last-update time .. now), so that an interval the
+    /// program must drop (dt x rate beyond 128 bits) can be recognised; settled = credited by a position update
     settled: Q,
     pending: Q,
     slack: Q,
     collected: u128,
+    /// upper-bound ledger, independent of anything the program stores about time: accrued by the harness clock alone — every
+    /// clock step of dt seconds adds rate x dt x L_P / L_pool for the positions in range in that (unchanging) state
+    xsettled: Q,
+    xpending: Q,
 }
 impl RG {
     fn new() -> Self {
-        RG { settled: Q::zero(), pending: Q::zero(), slack: Q::zero(), collected: 0 }
+        RG { settled: Q::zero(), pending: Q::zero(), slack: Q::zero(), collected: 0, xsettled: Q::zero(), xpending: Q::zero() }
     }
 }
 #[derive(Clone)]
@@ -129,7 +135,16 @@ fn build(label: &str, enc: [Enc; 3], vault0: u64) -> Wd {
         O::Base(Op::Inc { pos: 1, liq: stdworlds::BIG / 3, v2: false }),
         O::Base(Op::Swap { a_to_b: true, exact_in: true, amount: 1_000_000, lim: Lim::None, v2: false }), // back below 128: P0, P1 in range
     ];
+    // a reward that emits while NO liquidity is in range (only the out-of-range position is funded): the first deposit into the
+    // current tick takes the pool's liquidity from 0 to non-zero after an idle stretch — nothing may accrue for that stretch
+    let empty_emitting = vec![
+        O::InitReward { index: 0, v2: true },
+        O::Base(Op::Inc { pos: 2, liq: stdworlds::BIG, v2: true }),
+        O::SetEmissions { index: 0, rate: RATE_1, v2: false },
+        O::Base(Op::Clock(100)),
+    ];
     let prefixes = vec![
+        ("empty-emitting".to_string(), l.clone(), empty_emitting),
         ("late-lower-tick".to_string(), l.clone(), late_lower),
         ("funded-no-reward".to_string(), l.clone(), fund),
         ("emitting".to_string(), l.clone(), emitting),
@@ -257,9 +272,35 @@ impl<'a> M<'a> {
             }
         }
     }
+    /// the statement's own accrual, driven by the harness clock only: during a clock step nothing but time changes, so the pool's
+    /// in-range liquidity, the set of positions in range and the emission rates of the pre-state hold for the whole step
+    fn accrue_exact(&self, l: &Ledger, dt: i64, g: &mut [[RG; 3]]) {
+        if dt <= 0 {
+            return;
+        }
+        let pool = self.w().pool.state(l);
+        if pool.liquidity == 0 {
+            return;
+        }
+        for i in 0..3 {
+            if !Self::initialized(&pool, i) || pool.reward_infos[i].emissions_per_second_x64 == 0 {
+                continue;
+            }
+            let prod = bu(dt as u128) * bu(pool.reward_infos[i].emissions_per_second_x64);
+            for (pi, p) in self.w().positions.iter().enumerate() {
+                let ps = p.state(l);
+                if ps.liquidity > 0 && ps.tick_lower_index <= pool.tick_current_index && pool.tick_current_index < ps.tick_upper_index {
+                    let share = Q::new(&prod * bu(ps.liquidity), bu(pool.liquidity) << 64);
+                    g[pi][i].xpending = g[pi][i].xpending.add(&share);
+                }
+            }
+        }
+    }
     /// a position update credits the pending amount (floor), or drops it when it does not fit in u64
     fn settle(&self, g: &mut [RG; 3], count: bool) {
         for i in 0..3 {
+            let x = std::mem::replace(&mut g[i].xpending, Q::zero());
+            g[i].xsettled = g[i].xsettled.add(&x);
             let p = std::mem::replace(&mut g[i].pending, Q::zero());
             if p.floor() >= pow2(64) {
                 if count {
@@ -279,10 +320,10 @@ impl<'a> M<'a> {
             if owed[i] > 0 {
                 self.c.nonzero_owed.fetch_add(1, Ordering::Relaxed);
             }
-            if !got.le(&g[i].settled) {
+            if !got.le(&g[i].xsettled) {
                 return Err(format!(
-                    "{what}: position {pi} [{}..{}) reward {i}: collected+owed = {} exceeds its exact pro-rata share {:.6} of the emissions",
-                    p.lower, p.upper, g[i].collected + owed[i] as u128, g[i].settled.to_f64()
+                    "{what}: position {pi} [{}..{}) reward {i}: collected+owed = {} exceeds its exact pro-rata share {:.6} of the emissions (rate x seconds in range x its share of the in-range liquidity, by the harness clock)",
+                    p.lower, p.upper, g[i].collected + owed[i] as u128, g[i].xsettled.to_f64()
                 ));
             }
             if !g[i].settled.le(&got.add(&g[i].slack)) {
@@ -323,6 +364,8 @@ impl<'a> Model for M<'a> {
                 fp_q(&mut h, &r.settled);
                 fp_q(&mut h, &r.pending);
                 fp_q(&mut h, &r.slack);
+                fp_q(&mut h, &r.xsettled);
+                fp_q(&mut h, &r.xpending);
                 h.u128(r.collected);
             }
         }
@@ -335,6 +378,7 @@ impl<'a> Model for M<'a> {
         let w = self.w();
         if let O::Base(Op::Clock(dt)) = op {
             let mut n = s.clone();
+            self.accrue_exact(&s.l, *dt, &mut n.g);
             n.l.unix_ts += dt;
             return Ok(Some(n));
         }
